@@ -27,7 +27,8 @@ tiers container (`t.trackers[a:b] = …`, open finding D16b) is outside the theo
 
 `reverse()` (/repo 3d3793a) is an operation of the alphabet on all four kinds of list; with `pop`, `remove`,
 `+=`, `append`, `extend` every mutating MutableSequence mixin method is covered.  `reverse_expected` states
-C16_reverse on the real code (no error; a URL list reads back reversed).
+C16_reverse / C16_tiers_reverse on the real code (no error; a URL list reads back reversed; the tiers
+container reads back in reversed tier order since /repo f86a28a).
 """
 import itertools
 import json
@@ -138,7 +139,7 @@ def _apply_t(tr, op):
     elif n == 'setslice':
         tr[op['a']:op['b']] = list(op['vs'])
     elif n == 'reverse':
-        tr.reverse()                 # the inherited MutableSequence.reverse (Trackers does not override it)
+        tr.reverse()
     else:
         raise RuntimeError(f'harness: unknown op {n}')
 
@@ -507,12 +508,11 @@ def reject_expected(op, before_rb, is_url):
 
 
 def reverse_expected(mop, before_rb):
-    """What `reverse()` must do (counterpart of C16_reverse / C16_reverse_tier; list.reverse() has no
-    documented error): (allowed outcomes, expected read-back of the edited list or None = not judged).
-    On a URL list (webseeds, httpseeds, a tier) the list read back afterwards is exactly the reversed
-    list.  On the tiers container only "no error" is demanded here: Trackers.reverse() is the inherited
-    MutableSequence.reverse, which changes nothing (candidate finding, see notes/C16.md) — metainfo
-    and lists stay in sync, which is all C16 states; what it does is pinned by the model comparison."""
+    """What `reverse()` must do (counterpart of C16_reverse / C16_reverse_tier / C16_tiers_reverse;
+    list.reverse() has no documented error): (allowed outcomes, expected read-back of the edited list
+    or None = not judged).  On a URL list (webseeds, httpseeds, a tier) the list read back afterwards
+    is exactly the reversed list; on the tiers container (/repo f86a28a) the tiers read back are
+    exactly the old tiers in reversed order (each tier unchanged)."""
     if before_rb is None:
         return ('ok', 'url'), None                 # the getter itself fails (state broken before)
     on = mop['on']
@@ -524,7 +524,7 @@ def reverse_expected(mop, before_rb):
             return ('index',), {'tr': tiers}
         k = mop['ti'] % n
         return ('ok',), {'tr': tiers[:k] + [list(reversed(tiers[k]))] + tiers[k + 1:]}
-    return ('ok',), None
+    return ('ok',), {'tr': list(reversed(before_rb['tr']))}
 
 
 # ----------------------------------------------------------------------------------------------
